@@ -92,6 +92,7 @@ func (f *Fact) UnmarshalJSON(b []byte) error {
 	if d.Any != nil {
 		f.Any = d.Any
 	}
+	f.SetWrapped()
 	f.T = relocate(f.T, d.TLoc)
 	f.T2 = relocate(f.T2, d.T2Loc)
 	return nil
